@@ -6,7 +6,7 @@ from concurrent.futures import ThreadPoolExecutor
 
 import hg
 
-KEEP = {"cycle", "cycled", "eval", "fn", "req", "gstart", "nstarted", "nstop", "ret"}
+KEEP = {"cycle", "cycled", "eval", "fn", "req", "gstart", "nstarted", "nstop", "ret", "err"}
 
 
 def validate(module, cfg, items, tag, shards=None, keep=KEEP, timeout=1800):
@@ -30,12 +30,11 @@ def validate(module, cfg, items, tag, shards=None, keep=KEEP, timeout=1800):
         if res.violation:
             raise hg.MachineryError("trace spec %s reported a violation of its own:\n%s" % (module, res.violation))
         out = {}
-        for line in res.printed:
-            m = re.match(r'<<"VERDICT", (-?\d+|"[^"]*"), (\d+), "([^"]*)">>', line)
-            if m:
-                key = m.group(1)
-                key = int(key) if not key.startswith('"') else key.strip('"')
-                out[key] = (int(m.group(2)), m.group(3))
+        # TLC wraps long tuples over several lines
+        for m in re.finditer(r'<<\s*"VERDICT",\s*(-?\d+|"[^"]*"),\s*(\d+),\s*"([^"]*)"\s*>>', "\n".join(res.lines)):
+            key = m.group(1)
+            key = int(key) if not key.startswith('"') else key.strip('"')
+            out[key] = (int(m.group(2)), m.group(3))
         missing = [it["id"] for it in part if it["id"] not in out]
         if missing:
             raise hg.MachineryError("no verdict for traces %s\n%s" % (missing[:5], "\n".join(res.lines[-30:])))
